@@ -217,6 +217,26 @@ def one_case(ctx, rng, idx):
             detail = {'len_full': len(pf or b''), 'len_alone': len(pa or b'')}
         rep.fail('incomplete-capture:%s' % kind, case, detail)
     total_rows_at_position = sum(len(r['rows']) for r in alone['ok'])
+    # what a file dumper persisted can be read back, resource by resource, with as many rows as passed its position
+    if kind in ('dump_to_path', 'dump_to_path_json', 'dump_to_zip') and isinstance(pf, dict) and 'datapackage.json' in pf:
+        try:
+            dpj = json.loads(pf['datapackage.json'].decode('utf-8'))
+            for rdesc, at_pos in zip(dpj['resources'], alone['ok']):
+                raw = pf.get(rdesc['path'])
+                if raw is None:
+                    rep.fail('persisted-file-missing:%s' % kind, case, {'path': rdesc['path']})
+                    continue
+                if rdesc.get('format') == 'json':
+                    n_rows = len(json.loads(raw.decode('utf-8')))
+                else:
+                    import csv as _csv
+                    import io as _io
+                    n_rows = max(0, len(list(_csv.reader(_io.StringIO(raw.decode('utf-8'), newline='')))) - 1)
+                if n_rows != len(at_pos['rows']):
+                    rep.fail('persisted-row-count:%s' % kind, case, {'resource': rdesc['name'], 'file_rows': n_rows,
+                                                                     'rows_at_position': len(at_pos['rows'])})
+        except Exception as e:  # noqa
+            rep.fail('persisted-file-not-readable:%s' % kind, case, {'error': repr(e)[:200]})
     if kind == 'finalizer':
         if len(full_cap.calls) != 1:
             rep.fail('finalizer:fired-%d-times' % len(full_cap.calls), case, full_cap.calls)
